@@ -745,6 +745,12 @@ def _judge(ctx, path, variant, spec, r) -> None:
             key = f"second-close-not-prompt:{path}"
         elif "not closed" in p or "is_closing" in p or "still open" in p or "not closing" in p:
             key = f"left-open:{path}:cancel-in-{phase}" if spec is not None else f"left-open:{path}:no-cancel"
+            # the two recorded findings have one precise shape each: anything else in the same place is a new violation
+            oc = str(r.get("outcome"))
+            if key == "left-open:server-client-behind-sender:cancel-in-send_lock_wait" and oc != "raised:BusyResourceError":
+                key += f":{oc.split(':')[0]}"  # known shape: the forced close is attempted and refused by the send guard
+            if key == "left-open:client-behind-sender:cancel-in-send_lock_wait" and not oc.startswith("cancelled"):
+                key += f":{oc.split(':')[0]}"  # known shape: the cancellation propagates and nothing is closed
         else:
             key = f"other:{path}"
         ctx.violation(key, f"[{path}/{variant}] spec={spec} outcome={r.get('outcome')}: {p}", {"path": path, "variant": variant, "spec": list(spec) if spec else None, "phase": phase})
